@@ -257,3 +257,14 @@ class DCD:
     """non-init field that instances leave at its declared default"""
     a: object
     b: object = dataclasses.field(init=False, default=0)
+
+
+@task(limits={"r": 2})
+def r2big(x):
+    return x + 500
+
+
+@task(limits=["r"])
+def rdup_big(x):
+    """Needs r:1 itself; its child needs r:2."""
+    return r2big(x)
